@@ -1069,6 +1069,26 @@ class Evaluator:
     def ex_Dict(self, n, env, fctx):
         base = None
         items = []
+        # {**d, 'k': v, ...}: the mapping d with the listed keys (re)assigned, i.e. what `c = dict(d); c['k'] = v` gives -
+        # the same term the in-place spelling produces (a later entry replaces an earlier one with the same key)
+        if any(k is None for k in n.keys):
+            cur = ('dict', ())
+            okay = True
+            for i, (k, v) in enumerate(zip(n.keys, n.values)):
+                vt = self.ev(v, env, fctx)
+                if k is None:
+                    if vt[0] == 'dict':
+                        for a_, b_ in vt[1]:
+                            cur = self.store(cur, a_, b_)
+                    elif i == 0:
+                        cur = vt
+                    else:
+                        okay = False
+                        break
+                else:
+                    cur = self.store(cur, self.ev(k, env, fctx), vt)
+            if okay:
+                return cur
         for k, v in zip(n.keys, n.values):
             vt = self.ev(v, env, fctx)
             if k is None:
